@@ -390,7 +390,7 @@ pub fn c15_random(ctx: &Ctx, rng: &mut Rng, seed: u64, quick: bool) -> History {
                     _ => {}
                 }
             }
-            steps.push(Step::Cli { query: "1 + 1".into(), exact: false, describe: false, env, split: false, inject: None });
+            steps.push(Step::Cli { query: "1 + 1".into(), exact: false, describe: false, env, split: false, inject: None, tty: false });
         } else {
             steps.push(Step::Start { session: c15_session(ctx, faults, subset.clone()) });
         }
@@ -416,7 +416,7 @@ pub fn c15_soak(ctx: &Ctx, rng: &mut Rng, seed: u64, quick: bool) -> History {
                 let faults = random_fault(ctx, rng);
                 steps.push(Step::Start { session: c15_session(ctx, faults, subset.clone()) });
             }
-            2 | 3 => steps.push(Step::Cli { query: "1 + 1".into(), exact: false, describe: false, env: vec![], split: false, inject: None }),
+            2 | 3 => steps.push(Step::Cli { query: "1 + 1".into(), exact: false, describe: false, env: vec![], split: false, inject: None, tty: false }),
             4 => steps.push(Step::Start { session: ctx.session(1, vec![], vec![Op::Open { slot: 1, mode: Mode::Mem, plan: Plan::default() }]) }),
             _ => steps.push(Step::Start { session: c15_session_ordered(ctx, vec![], subset.clone(), rng.chance(1, 2)) }),
         }
@@ -1184,7 +1184,7 @@ pub fn c19_query(pool: &PhrasePool, rng: &mut Rng) -> String {
             _ => format!("1 / {}", rng.range(2, 13)),
         }
     };
-    match rng.below(36) {
+    match rng.below(37) {
         20 | 21 => format!("{} {}", *rng.pick(&["1", "0.5", "0.25", "0.125", "0.2", "2", "1.0", "10", "0.1", "1.5", "0.01", "3"]), plural_unit(rng)),
         22 => format!("{} {} to {}", *rng.pick(&["1", "10", "100", "5", "0.5"]), plural_unit(rng), plural_unit(rng)),
         23 => format!("({})({})", small(rng), small(rng)),
@@ -1250,6 +1250,17 @@ pub fn c19_query(pool: &PhrasePool, rng: &mut Rng) -> String {
                 format!("(3{name})({}m)", rng.range(1, 9))
             }
         }
+        36 => {
+            // units raised to large powers (two and three digit exponents, also reached by arithmetic)
+            let e = *rng.pick(&[9usize, 10, 11, 19, 20, 21, 60, 99, 100, 101, 120, 999, 1000, 1024]);
+            let u = *rng.pick(&["m", "s", "kg", "km", "V", "decade"]);
+            match rng.below(4) {
+                0 => format!("{} {u}^{e}", rng.range(1, 9)),
+                1 => format!("{} {u}^-{e}", rng.range(1, 9)),
+                2 => format!("{} {u}^{} * {} {u}^{}", rng.range(1, 9), e / 2, rng.range(1, 9), e - e / 2),
+                _ => format!("{}.5 {u}^{e} / 2 s^{}", rng.range(1, 9), rng.range(2, 130)),
+            }
+        }
         31 => format!("{}%({}){}%", rng.range(1, 99), small(rng), rng.range(1, 99)),
         32 => format!("round({}){}%{}%", small(rng), rng.range(1, 99), rng.range(1, 99)),
         33 => format!("{} {} to {}", rng.range(0, 170) as i64 - 50, *rng.pick(&["celsius", "fahrenheit", "K"]), *rng.pick(&["celsius", "fahrenheit", "K"])),
@@ -1293,7 +1304,7 @@ pub fn c19_random(ctx: &Ctx, pool: &PhrasePool, rng: &mut Rng, seed: u64) -> His
     }
     // the first call performs whatever recovery the directory needs
     let (q0, e0, _) = queries[0].clone();
-    steps.push(Step::Cli { query: q0, exact: e0, describe: false, env: vec![], split: rng.chance(1, 3), inject: None });
+    steps.push(Step::Cli { query: q0, exact: e0, describe: false, env: vec![], split: rng.chance(1, 3), inject: None, tty: false });
     for (q, exact, describe) in &queries {
         // sometimes one of the program's writes is interrupted (EINTR): that is not an error, the
         // output must be what it is otherwise (the directory is complete by now, so the writes are
@@ -1310,7 +1321,15 @@ pub fn c19_random(ctx: &Ctx, pool: &PhrasePool, rng: &mut Rng, seed: u64) -> His
                 }
             }
         }
-        steps.push(Step::Cli { query: q.clone(), exact: *exact, describe: *describe, env, split: rng.chance(1, 3), inject });
+        // a quarter of the runs write to a pseudo terminal, as when a person types the command
+        let tty = inject.is_none() && rng.chance(1, 4);
+        if tty && rng.chance(3, 4) {
+            // ... in an ordinary interactive environment: a colour terminal, no NO_COLOR
+            env.retain(|(k, _)| k != "TERM" && k != "NO_COLOR");
+            env.push(("TERM".into(), rng.pick(&["xterm-256color", "screen", "linux"]).to_string()));
+            env.push(("NO_COLOR".into(), "<unset>".into()));
+        }
+        steps.push(Step::Cli { query: q.clone(), exact: *exact, describe: *describe, env, split: rng.chance(1, 3), inject, tty });
     }
     let texts: Vec<String> = queries.iter().map(|q| q.0.clone()).collect();
     steps.push(Step::Start {
